@@ -26,7 +26,7 @@ PROPS = {
     'C03': _p('exploration'),
     'C04': _p('exploration'),
     'C05': _p('exploration'),
-    'C06': _p('exploration'),
+    'C06': _p('proof', explanation='every finite-function / semifinite-function operation under a Verus contract stating its set-theoretic table; coequalizer against the universal property (is_coeq); coequalizer_universal iff constant on fibres'),
     'C07': _p('proof', explanation='every array primitive of the Vec backend under a Verus contract stating its scalar definition; bodies extracted from /repo each run', kani_quick=True),
     'C08': _p('exploration'),
     'C09': _p('exploration'),
